@@ -620,6 +620,9 @@ def classify_prog(prog, query, observe, expected, observed):
       findall-order-not-sld                   any other findall goal (rules, conjunctions, disjunctions, duplicate solutions); same symptom
                                               (findall orders solutions by the highest formula-node id of their proof, which follows SLD
                                               order only while no proof reuses an older node; index order also propagates through rules)
+      findall-duplicates-collapsed            some solution has several SLD derivations; symptom: same set of solutions, every one at most as
+                                              often as in the SLD list, at least one less often (two proofs of one tabled ground subgoal
+                                              are or-ed into one node)
       findall-solutions-share-variables       non-ground solutions; symptom: right solutions in the right order, but variables of
                                               different solutions are the same variable"""
     if observed[0] != 'ok' or not isinstance(expected, list) or observe != 'list':
@@ -640,6 +643,10 @@ def classify_prog(prog, query, observe, expected, observed):
         if direct_index_case(prog, query):
             return "clause-index-order"
         return "findall-order-not-sld"
+    import collections
+    me, mo = collections.Counter(map(repr, ce)), collections.Counter(map(repr, co))
+    if set(me) == set(mo) and len(co) < len(ce) and all(mo[k] <= me[k] for k in mo):
+        return "findall-duplicates-collapsed"
     return None
 
 
@@ -734,6 +741,19 @@ def run_progs(ctx, exe):
     wit = [(C('p', X, I(1)), ('true',)), (C('p', A('a'), I(2)), ('true',)), (C('p', Y, I(4)), ('true',)),
            (C('fa', L), ('findall', Y, ('call', C('p', A('a'), Y)), L))]
     items.insert(0, (wit, [(C('fa', V('Q0')), 'list'), (C('p', A('a'), V('Q1')), 'set')], "witness"))
+    # minimised witnesses of the other classes seen so far
+    Z, W, B, Aa = V('Z'), V('W'), V('B'), A('a')
+    w2 = [(C('p1', Aa), ('true',)), (C('p1', A('c')), ('true',)), (C('q0', Y), ('call', C('p1', Y))), (C('q0', W), ('call', C('p1', W))),
+          (C('fa', L), ('findall', C('t', X), ('call', C('q0', X)), L))]
+    w3 = [(C('p0', V('V0'), Aa), ('true',)), (C('p1', I(1), A('c')), ('true',)), (C('p2', V('V0')), ('true',)),
+          (C('q0', X), ('and', ('call', C('p2', X)), ('neq', X, I(1)))),
+          (C('q0', X), ('and', ('call', C('p0', W, X)), ('call', C('p1', Y, A('c'))))),
+          (C('q1', Z, Z), ('and', ('call', C('q0', Z)), ('and', ('or', ('call', C('p0', Z, I(1))), ('call', C('q0', Z))), ('neq', Z, I(2))))),
+          (C('fa', L), ('findall', B, ('call', C('q1', X, B)), L))]
+    w4 = [(C('p2', A('b'), V('V1')), ('true',)), (C('p2', V('V0'), V('V1')), ('true',)),
+          (C('fa', L), ('findall', B, ('call', C('p2', A('b'), B)), L))]
+    for w in (w2, w3, w4):
+        items.insert(1, (w, [(C('fa', V('Q0')), 'list')], "witness"))
     enc = new_enc()
     reqs, meta = [], []
     for pi, (prog, queries, kind) in enumerate(items):
